@@ -26,7 +26,12 @@ RULE = ('option lists of length 0..7 are drawn with replacement from a per-case 
         'raw flags; both modes (normal, pkg-config) and a compile-side, link-side and mixed (error-branch) stream; '
         'every finite option of the model enumeration is also run alone. A case is non-trivial when its option list '
         'is non-empty and distinct by its canonical text. Compiler probes: every word of the finite grammar part and '
-        'a sample of the parameterised part on gcc and clang (g++/clang++ for the C++ standards).')
+        'a sample of the parameterised part on gcc and clang (g++/clang++ for the C++ standards). System level: option '
+        'placements global / per target / environment / toolchain file (--toolchain FILE with compile_options) in ordered '
+        'pairs; raw option words with blanks, double blanks, quotes, backslashes, $, shell operators (string macros, an '
+        'rpath directory, a --defsym, a library directory and -lm) given as toolchain-file list (one element = one word), '
+        'toolchain-file string and CFLAGS/LDFLAGS/LDLIBS, each built and run: the program compares every macro with '
+        'strcmp, the rpath is read back with patchelf; words with a single quote go into projects of their own.')
 TRUSTED = ('R model: accepted-flag grammar of Misc/Options.v, validated against gcc 12 and clang 14 on this run '
            '(exit status of -fsyntax-only / link probes)',
            'effects (predefined macros, warnings-as-errors, entry point, sections) are observed on the real compilers, '
@@ -914,12 +919,18 @@ def stage_system(rep, rng, cs):
     }
     cases = []
     # a define placed twice with different values in every ordered pair of placements: the later source must win
-    rank = {'env': 0, 'global': 1, 'target': 2}
+    rank = {'env': 0, 'toolchain': 0, 'global': 1, 'target': 2}
     for a in placements:
         for b in placements:
             if a == b:
                 continue
             cases.append(('define-override', a, b))
+    # the toolchain file (--toolchain FILE: compile_options([...], 'c')) is a fourth place; it stores its options where
+    # the environment would (so the pair with 'env' has no defined winner and is left out)
+    for o in ('global', 'target'):
+        cases.append(('define-override', 'toolchain', o))
+        cases.append(('define-override', o, 'toolchain'))
+    cases.append(('optimize-size+pic+pthread', 'toolchain', 'toolchain'))
     for a in placements:
         cases.append(('optimize-size+pic+pthread', a, a))
     # a SYSTEM include directory (not one of the compiler's defaults) together with warnings-as-errors, placed globally
@@ -934,7 +945,7 @@ def stage_system(rep, rng, cs):
         src, bld = os.path.join(d, 'src'), os.path.join(d, 'build')
         os.makedirs(src)
         env = dict(env0)
-        glob, copts, cflags = [], [], []
+        glob, copts, cflags, tcflags = [], [], [], []
         pre = ''
         if kind == 'define-override':
             vals = {a: 1, b: 2}
@@ -943,6 +954,8 @@ def stage_system(rep, rng, cs):
                     glob.append('opts.define("PLACED", "%d")' % v)
                 elif pl == 'target':
                     copts.append('opts.define("PLACED", "%d")' % v)
+                elif pl == 'toolchain':
+                    tcflags.append('-DPLACED=%d' % v)
                 else:
                     cflags.append('-DPLACED=%d' % v)
             winner = vals[max(vals, key=lambda p: rank[p])]
@@ -963,6 +976,8 @@ def stage_system(rep, rng, cs):
                     copts.append(o)
             if a == 'env':
                 cflags += ['-Os', '-fPIC', '-pthread']
+            if a == 'toolchain':
+                tcflags += ['-Os', '-fPIC', '-pthread']
             checks = ('#if !defined(__OPTIMIZE_SIZE__) || !defined(__PIC__) || !defined(_REENTRANT)\n'
                       '#error option without effect\n#endif\n')
         if cflags:
@@ -974,7 +989,12 @@ def stage_system(rep, rng, cs):
             f.write(('#include <vend.h>\n' if kind == 'system-include-dir' else '') + MAIN_C.format(checks=checks))
         rep.case('s:%s:%s:%s' % (kind, a, b), True)
         rep.count('system:' + kind)
-        p = subprocess.run(['bfg9000', 'configure-into', src, bld, '--backend=make', '--no-resolve-packages'],
+        tcargs = []
+        if tcflags:
+            with open(os.path.join(d, 'toolchain.bfg'), 'w') as f:
+                f.write('compile_options(%r, %r)\n' % (tcflags, 'c'))
+            tcargs = ['--toolchain', os.path.join(d, 'toolchain.bfg')]
+        p = subprocess.run(['bfg9000', 'configure-into', src, bld, '--backend=make', '--no-resolve-packages'] + tcargs,
                            env=env, capture_output=True, text=True, timeout=300)
         if p.returncode != 0:
             rep.fail('system: configure fails for %s placed %s/%s: %s' % (kind, a, b, (p.stderr or p.stdout)[-400:]),
@@ -994,6 +1014,138 @@ def stage_system(rep, rng, cs):
             n_ok += 1
         shutil.rmtree(d, ignore_errors=True)
     rep.stage('system:configure+make', projects=len(cases), ok=n_ok)
+
+
+WORD_VALUES = ['hello world', 'a  b', "it's", 'say "hi"', 'back\\slash', '$HOME', '${HOME}', 'a;b', 'x&y', '*', 'tab\there',
+               'q\'"mix', ' lead', 'trail ', '~', '`id`', '(p)', 'a|b', '<i>', '%s', '\\', 'a\\ b', '$$', "''", '""', 'a=b c=d', ',x y']
+
+
+def c_literal(v):
+    """the C string literal denoting v"""
+    return '"' + v.replace('\\', '\\\\').replace('"', '\\"').replace('\t', '\\t') + '"'
+
+
+FINDING_TC_QUOTE = 'toolchain-list-word-with-single-quote'
+FINDING_LD_QUOTE = 'ldflags-word-with-single-quote'
+
+
+def words_project(rep, cs, form, vals, rdir, libdir, plain, tag):
+    """one project whose raw option words are given in one form; returns True when they all arrive"""
+    import shlex
+    env0 = common.impl_env()
+    cwords = ['-DW%d=%s' % (k, c_literal(v)) for k, v in enumerate(vals)] + [plain]
+    lwords = ['-Wl,-rpath,' + rdir, '-Wl,--defsym=c16_abs=0x2a']
+    libwords = ['-L' + libdir, '-lm']
+    d = os.path.join(cs.root, 'words-' + tag)
+    shutil.rmtree(d, ignore_errors=True)
+    src, bld = os.path.join(d, 'src'), os.path.join(d, 'build')
+    os.makedirs(src)
+    env = {k: v for k, v in env0.items() if k not in ('CFLAGS', 'CPPFLAGS', 'LDFLAGS', 'LDLIBS')}
+    tcargs, tc = [], None
+    if form == 'env':
+        # shlex.join writes a single quote as '"'"' (no backslash: bfg9000 does not treat it as an escape in these variables)
+        env.update({'CFLAGS': shlex.join(cwords), 'LDFLAGS': shlex.join(lwords), 'LDLIBS': shlex.join(libwords)})
+    else:
+        def arg(words):
+            return repr(words if form == 'toolchain-list' else shlex.join(words))
+        tc = 'compile_options(%s, %r)\nlink_options(%s)\nlib_options(%s)\n' % (arg(cwords), 'c', arg(lwords), arg(libwords))
+        with open(os.path.join(d, 'toolchain.bfg'), 'w') as f:
+            f.write(tc)
+        tcargs = ['--toolchain', os.path.join(d, 'toolchain.bfg')]
+    checks = ''.join('  if (strcmp(W%d, %s) != 0) { printf("W%d is [%%s]\\n", W%d); return 1; }\n' % (k, c_literal(v), k, k)
+                     for k, v in enumerate(vals))
+    checks += '  if ((long)c16_absp != 42) return 2;\n  if (floor(c16_half + c16_half) != 1.0) return 3;\n'
+    with open(os.path.join(src, 'build.bfg'), 'w') as f:
+        f.write(BUILD_BFG.format(globals='', copts='', lopts=''))
+    with open(os.path.join(src, 'main.c'), 'w') as f:
+        # the absolute symbol is read through a data relocation (right in position-independent executables too)
+        f.write('#include <string.h>\n#include <math.h>\nextern char c16_abs[];\nstatic char *volatile c16_absp = c16_abs;\n'
+                'volatile double c16_half = 0.5;\n' + MAIN_C.format(checks=checks))
+    replay = {'kind': 'option-words', 'form': form, 'compile_words': cwords, 'link_words': lwords, 'lib_words': libwords,
+              'toolchain.bfg': tc, 'environment': {k: env[k] for k in ('CFLAGS', 'LDFLAGS', 'LDLIBS') if k in env}}
+    rep.case('words:%s:%r' % (form, cwords + lwords + libwords), True)
+    rep.count('system:option-words:' + tag)
+    quoted = [w for w in cwords + lwords + libwords if "'" in w]
+
+    def classes(output):
+        """the known finding explains a failure only when the words are given as a toolchain-file list, one of them
+        contains a single quote, and the failure is the one that quote causes: the configure error of an unbalanced
+        quote, or that very word arriving with backslashes in place of its quotes"""
+        if 'No closing quotation' in output and any(w.count("'") % 2 for w in lwords):
+            # a second known finding: the probe of the linker (cc LDFLAGS -v -Wl,--version) echoes the link flags and
+            # CcBuilder splits that line as shell words; any form of giving the link flags
+            return (FINDING_LD_QUOTE,)
+        if form != 'toolchain-list' or not quoted:
+            return ()
+        if 'No closing quotation' in output and any(w.count("'") % 2 for w in quoted):
+            return (FINDING_TC_QUOTE,)
+        got = []
+        for line in output.split('\n'):
+            try:
+                got += shlex.split(line)
+            except ValueError:
+                pass
+        if any(w.replace("'", '\\') in got for w in quoted):
+            return (FINDING_TC_QUOTE,)
+        return ()
+    p = subprocess.run(['bfg9000', 'configure-into', src, bld, '--backend=make', '--no-resolve-packages'] + tcargs,
+                       env=env, capture_output=True, text=True, timeout=300)
+    if p.returncode != 0:
+        rep.fail('system: configure fails with the option words %r / %r / %r given as %s: %s' % (
+            cwords, lwords, libwords, form, (p.stderr or p.stdout)[-400:]), dict(replay, stderr=p.stderr[-2000:]),
+            classes=classes(p.stderr + p.stdout))
+        shutil.rmtree(d, ignore_errors=True)
+        return False
+    p = subprocess.run(['make', '-C', bld], env=env, capture_output=True, text=True, timeout=300)
+    what = None
+    if p.returncode != 0:
+        what = 'the build fails: %s' % (p.stderr or p.stdout)[-500:]
+    else:
+        r = subprocess.run([os.path.join(bld, 'prog')], capture_output=True, text=True, timeout=60)
+        if r.returncode != 0 or 'c16-ok' not in r.stdout:
+            what = 'the program sees other values (exit %d: %s)' % (r.returncode, r.stdout.strip()[-200:])
+        else:
+            rp = subprocess.run(['patchelf', '--print-rpath', os.path.join(bld, 'prog')], capture_output=True, text=True)
+            if rdir not in rp.stdout.strip().split(':'):
+                what = 'the rpath of the program is %r' % rp.stdout.strip()
+    if what:
+        rep.fail('system: option words %r (compile), %r (link), %r (libs) given as %s do not reach the tools as those '
+                 'words: %s' % (cwords, lwords, libwords, form, what), dict(replay, make=(p.stdout + p.stderr)[-3000:]),
+                 classes=classes(p.stdout + p.stderr))
+    shutil.rmtree(d, ignore_errors=True)
+    return not what
+
+
+def stage_system_words(rep, rng, cs, thorough):
+    """Raw option WORDS given where bfg9000 stores them as one shell-syntax string - the toolchain file builtins
+    compile_options / link_options / lib_options in list form (one element = one word) and in string form (shell syntax),
+    and the CFLAGS / LDFLAGS / LDLIBS environment variables - must reach the compiler and the linker as exactly those
+    words.  Observed in the built program: string macros with blanks, quotes, backslashes, dollars compared with strcmp, an
+    rpath entry with a blank (patchelf --print-rpath), a --defsym value, and a library needed to link at all.
+    Words containing a single quote are given in a project of their own in the list form (known finding), so that the
+    project with the other words has to pass."""
+    forms = ['toolchain-list', 'toolchain-string', 'env']
+    rounds = 3 if thorough else 1
+    n, n_ok = 0, 0
+    for k, form in enumerate(forms * rounds):
+        vals = ['hello world'] + rng.sample(WORD_VALUES[1:], 5 if thorough else 4)
+        rng.shuffle(vals)
+        rdir = rng.choice(['/opt/c16 libs/a', '/opt/c16  two', '/opt/c16 "q"', '/opt/c16 $x'])
+        libdir = rng.choice(['/opt/c16 no such dir', "/opt/c16 it's"])
+        plain = rng.choice(['-DPLAINWORD=7', '-DPLAINWORD=7', '-O1'])
+        runs = [(vals, rdir, libdir, form)]
+        if form == 'toolchain-list':
+            q = [v for v in vals if "'" in v] or ["it's"]
+            runs = [([v for v in vals if "'" not in v], rdir, libdir.replace("'", ' '), form),
+                    (q, '/opt/c16 d', libdir if "'" in libdir else "/opt/c16 l", form + '-quote')]
+        for vs, rd, ld_, tag in runs:
+            n += 1
+            n_ok += bool(words_project(rep, cs, form, vs, rd, ld_, plain, '%s-%d' % (tag, k)))
+    # a link option with a single quote, in a project of its own (known finding), in one of the forms
+    n += 1
+    n_ok += bool(words_project(rep, cs, rng.choice(forms), ['hello world'], "/opt/c16'q", '/opt/c16 l', '-DPLAINWORD=7',
+                               'ldflags-quote'))
+    rep.stage('system:option words', projects=n, ok=n_ok)
 
 
 # ----------------------------------------------------------------------------- entry points
@@ -1018,6 +1170,7 @@ def run(rep):
         found += stage_oracle_pch(rep, rng)
         rep.stage('compilers', invocations=cs.n)
         stage_system(rep, rng, cs)
+        stage_system_words(rep, rng, cs, thorough)
     finally:
         shutil.rmtree(root, ignore_errors=True)
     if dis and not rep.n_with_input:
